@@ -637,6 +637,11 @@ func (e *Engine) builtin(fr *Frame, st *State, b *ssa.Builtin, c *ssa.CallCommon
 	case "append":
 		x, y := args[0], args[1]
 		e.borrowCheck(fr, st, y, "appended to a slice", pos)
+		if x.S == sBytes && x.Shared != "" && x.NotShrunk != "" && fr.fn != nil {
+			// append(shared[:k], ...) with k < len(shared) writes into the bytes that the other holders of that array still
+			// read: an aliasing obligation (the value model of []byte would otherwise hide the overwrite)
+			e.addObligation(st, fr, "aliased-write", []string{"alias"}, "append to a re-sliced []byte overwrites "+x.Shared+" (the re-slice must keep the full length)", e.posStr(pos), x.NotShrunk, nil)
+		}
 		if x.S == sBytes {
 			// []byte append: concatenation (y may be Bytes or Str)
 			ys := y.T
